@@ -191,7 +191,15 @@ def connOp (sc : Scn) (cid : String) (dc : DConn) (op : String) (args ts : List 
         | some v => if v.startsWith "err:" then .transport ((v.drop 4).toString.toNat?.getD 0) else .eof
         | none => .eof
       let t : TSrc := { chunks := cs.filter (fun c => !c.isEmpty), term, together := kvBool ts "tog" }
-      (sc.putDConn cid { dc with r := { dc.r with buf := { dc.r.buf with t, total := t.pending.length } } }, "ok")
+      let pre := (kvHex ts "pre").getD []
+      (sc.putDConn cid { dc with r := { dc.r with buf := { dc.r.buf with t, buf := pre, total := t.pending.length + pre.length } } }, "ok")
+    | none => (sc, "bad-op")
+  | "lines", n :: _ =>
+    -- http.ReadResponse consumed n header lines from the connection's own bufio.Reader
+    match n.toNat? with
+    | some n =>
+      let b := (List.range n).foldl (fun b _ => b.readLine (b.total + 2)) dc.r.buf
+      (sc.putDConn cid { dc with r := { dc.r with buf := b } }, "ok")
     | none => (sc, "bad-op")
   | "lim", l :: _ =>
     match l.toInt? with
